@@ -573,6 +573,15 @@ func emitA(src string, hist []string, probe string) {
 	pi := probeOf(probe)
 	ev := aEvent{Ev: "A", Src: src, Hist: hs, Text: probe, Kinds: pi.kinds, End: pi.end, Reused: reused, Fresh: pi.fresh, Open: pi.open, Attr: []string{}}
 	if !pi.open && !sameOutcome(reused, pi.fresh) {
+		// before a difference counts: is the meaning on a fresh parser deterministic at all?
+		for k := 0; k < 8 && !pi.open; k++ {
+			fp, _ := newSemParser()
+			st2, ok2, _ := parseWith(fp, probe)
+			pi.open = !sameOutcome(pi.fresh, outcomeOf(st2, ok2))
+		}
+		ev.Open = pi.open
+	}
+	if !pi.open && !sameOutcome(reused, pi.fresh) {
 		ev.Attr, ev.Other = attribute(hist, probe, pi.fresh)
 		if ev.Attr == nil {
 			ev.Attr = []string{}
